@@ -66,6 +66,16 @@ def hx(s):
     return s.encode("utf-8").hex()
 
 
+CHILD_MEMORY_LIMIT = 6 * 2 ** 30
+
+
+def _limit_child():
+    """children may not take the machine down: an input that asks for gigabytes of padding dies with an allocation
+    failure (reported as an abort) instead of swapping"""
+    import resource
+    resource.setrlimit(resource.RLIMIT_AS, (CHILD_MEMORY_LIMIT, CHILD_MEMORY_LIMIT))
+
+
 # ------------------------------------------------------------------ driver
 def run_crash(binary, cases, shards=None):
     """cases: list of (mode, source).  Returns one outcome string per case.  Every shard is a child process that is
@@ -82,7 +92,7 @@ def run_crash(binary, cases, shards=None):
             todo = idxs[pos:]
             inp = "".join("%d;%s\n" % (cases[i][0], hx(cases[i][1])) for i in todo)
             try:
-                p = subprocess.run([binary, "crash"], input=inp.encode(), stdout=subprocess.PIPE,
+                p = subprocess.run([binary, "crash"], input=inp.encode(), stdout=subprocess.PIPE, preexec_fn=_limit_child,
                                    stderr=subprocess.PIPE, timeout=CASE_TIMEOUT_MS / 1000 * 3 + 30 * len(todo) ** 0 + 600, env=env)
                 out = p.stdout.decode("utf-8", "replace").split("\n")
                 rc, err = p.returncode, p.stderr.decode("utf-8", "replace")
@@ -122,7 +132,7 @@ def run_single(binary, case):
     env = dict(common.ENV)
     env["NV_CASE_TIMEOUT_MS"] = str(CASE_TIMEOUT_MS)
     try:
-        p = subprocess.run([binary, "crash"], input=("%d;%s\n" % (case[0], hx(case[1]))).encode(),
+        p = subprocess.run([binary, "crash"], input=("%d;%s\n" % (case[0], hx(case[1]))).encode(), preexec_fn=_limit_child,
                            stdout=subprocess.PIPE, stderr=subprocess.PIPE, timeout=CASE_TIMEOUT_MS / 1000 + 60, env=env)
     except subprocess.TimeoutExpired:
         return "H|driver"
@@ -212,6 +222,9 @@ def match_known(known, src, outcome):
 
 # a finite numeric literal of magnitude >= 1e6 (7+ digits, or an exponent of 6 or more)
 HUGE_LITERAL_RE = re.compile(r"\d[\d_]{6,}|\d(?:\.\d*)?[eE]\+?(?:[6-9]|[1-9]\d+)")
+
+# format specifiers inside string interpolations are not counts of work requested by the user
+FORMAT_SPEC_RE = re.compile(r":[^}\"\n]*\}")
 
 RECURSION_RE = re.compile(r"fn\s+([^\s(<]+)")
 
@@ -345,6 +358,56 @@ def soup(rng, n):
     return out
 
 
+FILLS = ["", ".", "0", "1", "9", "<", ">", "^", "_", "*", " ", "#", "+", "-", "e", "x", "ä", "🙂", ":", "{", "}"]
+SIZES = ["", "", "0", "1", "5", "10", "00007", "255", "256", "1000", "65535", "65536", "65537", "70000", "99999", "4294967295",
+         "4294967296", "99999999999", "18446744073709551615", "18446744073709551616", "340282366920938463463374607431768211456"]
+FMT_VALUES = ["1.5", "1", "-2.25", "0", "1e300", "1e-300", "NaN", "inf", "-inf", "1/3", "1.5 m", "3 km/h", "0 K", "sv", "\"x\"", "\"\"",
+              "\"ä🙂\"", "true", "now()", "[1, 2]", "[\"a\"]", "sqrt", "2^70", "1 m^2", "100 %"]
+
+
+def format_spec(rng):
+    """Rust/strfmt format specifier grammar  [[fill]align][sign]['#']['0'][width]['.' precision][type]  with every kind of
+    fill character (including '.', digits and the alignment characters themselves) and widths/precisions from 0 to
+    beyond u16::MAX, u32::MAX and u64::MAX; 10% are deliberately malformed"""
+    fill = rng.choice([".", ".", "0", "7", "<", ">", "^"]) if rng.random() < 0.4 else rng.choice(FILLS)
+    align = rng.choice(["<", ">", "^", "<", ">", ""])
+    spec = (fill + align) if align else (fill if rng.random() < 0.1 else "")
+    plain = rng.random() < 0.5            # half of the specifiers use only what strfmt accepts for every value
+    if not plain:
+        spec += rng.choice(["", "", "+", "-"]) + rng.choice(["", "", "#"]) + rng.choice(["", "", "0"])
+    spec += rng.choice(SIZES)
+    if rng.random() < 0.6:
+        spec += "." + rng.choice(SIZES)
+    spec += rng.choice(["", "", "e"]) if plain else rng.choice(["", "", "", "e", "E", "x", "X", "o", "b", "?", "s", "d", "f", "%", "g"])
+    if rng.random() < 0.1:
+        i = rng.randrange(len(spec) + 1)
+        spec = spec[:i] + rng.choice([".", ":", "$", "*", ",", "1$", "width$", "{}", " "]) + spec[i:]
+    return spec
+
+
+def format_program(rng):
+    parts = []
+    for _ in range(rng.choice([1, 1, 1, 2, 3])):
+        parts.append("%s{%s:%s}" % (rng.choice(["", "a", " "]), rng.choice(FMT_VALUES), format_spec(rng)))
+    return "let sv = \"x\"\n\"%s\"" % "".join(parts)
+
+
+STRFTIME = list("aAbBcCdDeFfgGhHIjklmMnNpPQrRsStTuUVwWxXyYzZ%+:.#-_0^") + ["%", "%%", "%:z", "%::z", "%.f", "%.3f", "%.9f", "%N"]
+
+
+def strftime_program(rng):
+    """format_datetime with every strftime directive, flags (- _ 0 ^ #) and widths up to absurd sizes"""
+    fmt = ""
+    for _ in range(rng.randrange(1, 5)):
+        fmt += rng.choice(["", " ", "-", "T", "x"]) + "%" + rng.choice(["", "", "-", "_", "0", "^", "#"]) + \
+            rng.choice(["", "", "", "1", "9", "10", "255", "256", "65536", "99999999999"]) + rng.choice(STRFTIME)
+    dt = rng.choice(["now()", "datetime(\"2020-02-29 12:00 UTC\")", "from_unixtime_s(-377705023201)", "from_unixtime_s(253402207200)",
+                     "datetime(\"-0044-03-15 12:00 UTC\")", "now() -> tz(\"Asia/Kathmandu\")"])
+    if rng.random() < 0.3:
+        return "datetime(format_datetime(\"%s\", %s))" % (fmt, dt)
+    return "format_datetime(\"%s\", %s)" % (fmt, dt)
+
+
 FN_SIG_RE = re.compile(r"^fn\s+([^\s(<]+)\s*(?:<[^>]*>)?\s*\(([^)]*)\)", re.M)
 ARG_POOL = {
     "Scalar": ["0", "1", "-1", "2", "0.5", "-0.5", "1e308", "-1e308", "1e-320", "NaN", "inf", "-inf", "255", "256", "65536",
@@ -474,6 +537,10 @@ def run(chk):
         cases.append((0, mutate(rng, texts[f]), "mutation"))
     for s in soup(rng, 500 if quick else 8000):
         cases.append((rng.choice([0, 1]), s, "soup"))
+    for _ in range(500 if quick else 10000):
+        cases.append((rng.choice([0, 0, 1]), format_program(rng), "format-spec"))
+    for _ in range(200 if quick else 4000):
+        cases.append((0, strftime_program(rng), "strftime"))
     sigs = stdlib_signatures()
     for _ in range(700 if quick else 12000):
         cases.append((0, stdlib_call(rng, rng.choice(sigs)), "stdlib-call"))
@@ -501,7 +568,7 @@ def run(chk):
         if site_of(o)[0] in ("hang", "abort") and unbounded_recursion_possible(s):
             excluded_recursion += 1
             continue
-        if site_of(o)[0] == "hang" and HUGE_LITERAL_RE.search(s):
+        if site_of(o)[0] == "hang" and HUGE_LITERAL_RE.search(FORMAT_SPEC_RE.sub("}", s)):
             # e.g. falling_factorial(20, 1e30): the work asked for is proportional to a huge finite literal
             excluded_huge_work += 1
             continue
@@ -546,7 +613,10 @@ def run(chk):
         "rule": "corpus (known crashers and past findings) + extreme literals/operator runs/deep nesting + grammar-generated programs "
                 "(expressions, lets, non-recursive functions, units, dimensions, structs, strings with format specs, lists, date-times) + "
                 "mutations of windows of examples/*.nbt and numbat/modules/**/*.nbt + random Unicode/token soup + calls of every library "
-                "function (signatures read from numbat/modules) with edge-value arguments of the declared kinds; each in a clone of a "
+                "function (signatures read from numbat/modules) with edge-value arguments of the declared kinds + string interpolations "
+                "with format specifiers from the full grammar [[fill]align][sign][#][0][width][.precision][type] (every fill character, "
+                "sizes up to beyond u64::MAX, numeric/string/quantity/date values) + format_datetime with every strftime directive, "
+                "flag and absurd widths; each in a clone of a "
                 "prelude session or in a fresh context; distinct = distinct source texts (every text is run through the whole pipeline)",
         "exhaustive": False,
         "families": dict(fam), "outcomes": dict(outcome_hist),
